@@ -266,6 +266,9 @@ def prov_plan(ctx):
         for c, v in conds:
             if c[0] == "bin" and ((c[1] == "Eq" and v) or (c[1] == "Ne" and not v)) and ((is_pos(c[2]) and is_left(c[3])) or (is_pos(c[3]) and is_left(c[2]))):
                 guard = True
+    # (the remove call itself is read from MIR too: it may sit inside a block expression)
+    ok = len(rmc) == 1 and mb.expr_of_operand(rmc[0][1]["args"][1])[:2] == ("const", 0) and \
+        any(isinstance(x, tuple) and x[0] == "field" and x[2] == "planned_switches" for x in M.walk(mb.expr_of_operand(rmc[0][1]["args"][0])))
     obs.append(Ob(r, "consume", ok and guard, "maybe_switch_mode takes the front plan entry only when chars_left equals its position", detail=det))
     obs += floor(obs, r, 3, "plan provenance obligations")
     return obs
